@@ -119,6 +119,9 @@ var FieldDeepEqualContainer = `
 	{{- if eq .Type.Category.String "Map" }}{{$idx = "k"}}{{end}}
 	for {{$idx}}, v := range {{.Target}} {
 		{{- $ctx := (.ValCtx.WithTarget "v").WithSource $src}}
+		{{- if and .ValCtx.Type.Category.IsStructLike Features.ValueTypeForSIC}}
+		{{- $ctx = $ctx.WithSource (printf "&%s" $src)}}{{/* elements are values, DeepEqual takes a pointer */}}
+		{{- end}}
 		{{- if eq .Type.Category.String "Map" }}
 		{{- if .KeyCtx.Type.Category.IsStructLike}}
 		// struct keys are pointers: find the entry whose key has equal content
